@@ -20,10 +20,11 @@ type c10Prog struct {
 	Replica   int        `json:"replica"`
 	Merge     bool       `json:"merge"`
 	Loader    int        `json:"loader"`
-	N         int        `json:"n"`         // limit selector
-	Supplied  []int      `json:"supplied"`  // entries loader / hash loader: indices into the log's entries (mod)
-	HeadsOnly bool       `json:"headsOnly"` // entries loader: supply the heads
-	Runs      []loadSpec `json:"runs"`      // >= 3 executions with different concurrency / completion order
+	N         int        `json:"n"`                  // limit selector
+	Supplied  []int      `json:"supplied"`           // entries loader / hash loader: indices into the log's entries (mod)
+	HeadsOnly bool       `json:"headsOnly"`          // entries loader: supply the heads
+	Runs      []loadSpec `json:"runs"`               // >= 3 executions with different concurrency / completion order
+	HeadPerm  []int      `json:"headPerm,omitempty"` // order of the published head list (empty: the log\'s own order)
 }
 
 func genC10(t *rapid.T) c10Prog {
@@ -34,6 +35,9 @@ func genC10(t *rapid.T) c10Prog {
 	p.N = rapid.IntRange(0, 1<<16).Draw(t, "n")
 	p.Supplied = rapid.SliceOfN(rapid.IntRange(0, 1<<12), 1, 4).Draw(t, "supplied")
 	p.HeadsOnly = rapid.Bool().Draw(t, "headsOnly")
+	if rapid.Bool().Draw(t, "permuteHeads") {
+		p.HeadPerm = rapid.SliceOfN(rapid.IntRange(0, 7), 1, 6).Draw(t, "headPerm")
+	}
 	for i := 0; i < 3; i++ {
 		s := genLoadSpec(t)
 		s.Loader = p.Loader
@@ -83,6 +87,9 @@ func runC10(tb ev.TB, p c10Prog) ev.Result {
 		tb.Fatalf("ToMultihash: %v", err)
 	}
 	jsonLog := r.Log.ToJSONLog()
+	if len(p.HeadPerm) > 0 {
+		jsonLog, manifest = permuteHeads(tb, w, jsonLog, p.HeadPerm)
+	}
 
 	// starting points the caller supplies, and what is reachable from the start
 	var supplied []string
